@@ -165,6 +165,7 @@ public:
 		std::vector<uint32_t> newIndices;
 		uint32_t newIndex = 0;
 		std::vector<uint32_t> rootShapeOrder;
+		std::set<uint32_t> activeCollisionIndices; // Collision blocks currently being sorted (cycle guard)
 	};
 
 	void SetSortIndices(const NiRef& ref, SortState& sortState);
